@@ -42,6 +42,8 @@ func (sp *Scope) EndScope() {
 	// pop all deeper values
 	for sp.localCount > 0 && sp.locals[sp.localCount-1].depth > sp.currentDepth {
 		sp.localCount--
+		// the slot will be reused by a later symbol - it must not inherit the module reference
+		delete(sp.externalRefs, sp.localCount)
 	}
 }
 
